@@ -35,7 +35,7 @@ def P_(groups, bounded=(), harness=None, trusted=SCHED_TRUSTED, assumptions=SCHE
 
 
 PROPS = {
-    "C01": P_(["values", "dagproto", "nodeexec", "nodebuild"], ["programs", "programs_flat", "reference_matrix"], claim="other",
+    "C01": P_(["values", "dagproto", "nodeexec", "nodebuild", "retwrap"], ["programs", "programs_flat", "reference_matrix"], claim="other",
               explanation="Mixed: the value-level functions between the recorded node table and the returned value are proved against their contracts; that the recorded table is the meaning of the describing function (tracing) is only covered by the bounded program-level stand-in."),
     "C02": P_(["scheduler", "values", "nodeexec", "graphbuild", "nodebuild"], ["reference_matrix", "graph_build"], dict(SW)),
     "C03": P_(["scheduler", "values", "digraph", "dagproto", "graphbuild", "nodebuild"], ["programs_flat", "selection", "graph_build"], dict(SW, active=True)),
@@ -57,6 +57,6 @@ PROPS = {
     "C18": P_(["dagproto", "dagadmin"], ["cache"]),
     "C19": P_(["digraph"], ["compose"], claim="exploration",
               explanation="compose() is outside the verifier's subset (deepcopy of frozen dataclasses, in-place rewiring of shared lists); decided by the bounded stand-in only; the single proved obligation concerns ancestors_of_iter."),
-    "C20": P_([], ["programs", "reference_matrix"], claim="exploration",
+    "C20": P_(["retwrap", "threads"], ["programs", "reference_matrix"], claim="exploration",
               explanation="the describe branch of DAG.__call__ (dataclasses.asdict, LazyExecNode construction, frame inspection) is outside the verifier's subset; decided by the bounded stand-in only."),
 }
